@@ -26,7 +26,7 @@ def plan(tier, seed):
 
 def thresholds(tier):
   t = {"types_built": 300, "values_checked": 5000, "layout_comparisons": 5000, "aliasing_probes": 20000,
-       "types_with_list_field": 100, "types_nested": 100, "hash_comparisons": 1000, "same_name_redeclarations": 200, "hash_after_field_update_probes": 2000, "ctor_arg_aliasing_probes": 5000, "histories_checked": 1000, "history_flips_of_pending_leaves": 2000}
+       "types_with_list_field": 100, "types_nested": 100, "hash_comparisons": 1000, "same_name_redeclarations": 200, "hash_after_field_update_probes": 2000, "ctor_arg_aliasing_probes": 5000, "histories_checked": 1000, "history_flips_of_pending_leaves": 2000, "ragged_array_declarations_refused": 100, "list_args_given_as_ints": 60, "ctor_container_arg_aliasing_probes": 1000}
   if tier == "thorough":
     t = {k: v * 15 for k, v in t.items()}
   return t
@@ -312,7 +312,24 @@ def check_type(sh, shape, rng, case):
     args = {fn: B.val(f, v[fn]) for fn, f in shape[2]}
     o2 = cls(**args)
     for fn, f in shape[2]:
-      if not isinstance(f, int): continue
+      if not isinstance(f, int):
+        # struct- and list-typed arguments: the new struct takes their VALUE, too (a caller typically passes a field of a live
+        # register); every leaf below the argument is probed in both directions
+        sub = [(pth, w_) for (pth, lo_, w_) in R.leaves(f)] if not isinstance(f, int) else []
+        bad = None
+        for (pth, w_) in sub[:6]:
+          sh.count("ctor_container_arg_aliasing_probes")
+          la, ls_ = leaf_obj(args[fn], pth), leaf_obj(getattr(o2, fn), pth)
+          old = int(la.uint())
+          if la is ls_: bad = ("constructor-keeps-a-leaf-object-of-a-struct-or-list-argument", pth); break
+          la @= old ^ R.mask(w_)
+          if int(leaf_obj(getattr(o2, fn), pth).uint()) != old: bad = ("argument-mutation-visible-in-constructed-struct", pth); break
+          ls_ @= old ^ 1
+          if int(la.uint()) != old ^ R.mask(w_): bad = ("struct-field-mutation-visible-in-constructor-argument", pth); break
+          la @= old; ls_ @= old
+        if bad is None and getattr(o2, fn) is args[fn]: bad = ("constructor-keeps-the-argument-object-of-a-struct-or-list-field", ())
+        if bad: W(bad[0], field=fn, path=list(bad[1])); break
+        continue
       sh.count("ctor_arg_aliasing_probes")
       fld = getattr(o2, fn)
       old = int(args[fn].uint())
@@ -434,9 +451,72 @@ def name_variants(shape, rng):
   return out[:3]
 
 
+def check_array_decl(sh, rng, case):
+  """declarations of multi-dimensional list fields: a rectangular annotation of any depth is accepted and laid out by its full
+  shape; a RAGGED one (some sub-list at some depth longer or shorter than its siblings) has no layout and is refused"""
+  from pymtl3.datatypes import mk_bits, mk_bitstruct
+  w = rng.choice([1, 3, 4, 8]); T = mk_bits(w)
+  dims = [rng.randrange(1, 4) for _ in range(rng.randrange(2, 5))]
+  def build(ds):
+    return [build(ds[1:]) for _ in range(ds[0])] if ds else T
+  ann = build(dims)
+  nleaves = 1
+  for d in dims: nleaves *= d
+  ragged = rng.random() < 0.6
+  where = None
+  plen = rng.randrange(1, len(dims))
+  if not any(d >= 2 for d in dims[:plen]): ragged = False      # the changed sub-list would have no sibling to differ from
+  if ragged:
+    # lengthen or shorten ONE sub-list somewhere below the first level
+    path = [rng.randrange(d) for d in dims[:plen]]
+    node = ann
+    for i in path: node = node[i]
+    if rng.random() < 0.5 or len(node) == 1: node.append(copy.deepcopy(node[0])); where = (path, "+1")
+    else: node.pop(); where = (path, "-1")
+  sh.count("array_field_declarations")
+  try:
+    cls = mk_bitstruct(f"ArrD_{sh.idx}_{case}", {"hd": mk_bits(2), "arr": ann})
+  except Exception as e:
+    if not ragged:
+      sh.violation("rectangular-array-field-declaration-refused", {"dims": dims, "width": w, "error": f"{type(e).__name__}: {str(e)[:100]}"}, case=("arr", case))
+    else: sh.count("ragged_array_declarations_refused")
+    return
+  if ragged:
+    # equal sub-list lengths one level down can still hide a deeper difference: the declaration has to notice
+    tot = sum(1 for _ in _flat(ann)) * w + 2
+    sh.violation("ragged-array-field-declaration-accepted", {"dims": dims, "changed_sublist": where, "nbits": cls.nbits, "sum_of_leaf_widths": tot}, case=("arr", case))
+    return
+  if cls.nbits != nleaves * w + 2:
+    sh.violation("nbits-not-sum-of-leaves", {"dims": dims, "got": cls.nbits, "expected": nleaves * w + 2}, case=("arr", case))
+  # list arguments given as plain ints (ints are fine for scalar fields): converted element-wise
+  def ints(ds, c=[0]):
+    if not ds:
+      c[0] += 1; return (c[0] * 5 + 1) & R.mask(w)
+    return [ints(ds[1:], c) for _ in range(ds[0])]
+  vals = ints(dims)
+  try:
+    o = cls(1, vals)
+    flat = list(_flat(vals))
+    exp = 1
+    for v in reversed(flat): exp = (exp << w) | v
+    sh.count("list_args_given_as_ints")
+    if int(o.to_bits().uint()) != exp:
+      sh.violation("to_bits-layout", {"dims": dims, "int_list_argument": True, "got": hex(int(o.to_bits().uint())), "expected": hex(exp)}, case=("arr", case))
+  except Exception as e:
+    sh.violation("list-field-argument-of-ints-not-usable", {"dims": dims, "error": f"{type(e).__name__}: {str(e)[:120]}"}, case=("arr", case))
+
+
+def _flat(x):
+  if isinstance(x, list):
+    for y in x: yield from _flat(y)
+  else: yield x
+
+
 def run_shard(sh):
   rng = sh.rng("types")
   uid = [0]
+  for case in range(sh.params["types"] // 2):
+    check_array_decl(sh, sh.rng("arr", case), case)
   for case in range(sh.params["types"]):
     r = sh.rng("t", case)
     if sh.only is not None and str(case) != str(sh.only).strip('"'):
